@@ -50,7 +50,7 @@ func c02Arbitrary() *c02State {
 		st.size = rt.Choose("buckets", maxBuckets) + 1
 		rtCounts = 3 // 0..2 latency samples per bucket
 		if st.size == 3 {
-			rtCounts = 2 // three buckets: 0..1 latency samples per bucket
+			rtCounts, maxPass = 2, 1 // three buckets: 0..1 latency samples and 0..1 passes per bucket
 		}
 	} else {
 		st.size = 2 // quick: two buckets (one visible under IgnoreCurrentBucket, both after a bucket boundary)
